@@ -2288,6 +2288,15 @@ class Service:
         # Put together a set of the service and method names.
         answer = {self.name, self.client_name, self.async_client_name}
         answer.update(utils.to_snake_case(i.name) for i in self.methods.values())
+        # The names the methods are emitted under (client methods, transport
+        # properties): an RPC named by a keyword (`Import` -> `import_`) must not
+        # shadow a types module of that name (`import.proto` -> `import_`).
+        answer.update(
+            utils.to_snake_case(i.client_method_name) for i in self.methods.values()
+        )
+        answer.update(
+            utils.to_snake_case(i.transport_safe_name) for i in self.methods.values()
+        )
 
         # Identify any import module names where the same module name is used
         # from distinct packages.
